@@ -154,6 +154,50 @@ Theorem C15_auth_epoch_verdict_refuted_ack_lost :
 Proof. exact auth_epoch_verdict_refuted_ack_lost. Qed.
 Print Assumptions C15_auth_epoch_verdict_refuted_ack_lost.
 
+(* ------------------------------------------------------------------ "newest record": the summary *)
+
+(* The per-epoch "a record was accepted" flags may be kept as a two-field summary (Rrc/C15Newest.v
+   sstate / sum_verdict) provided the summary is the MAXIMUM so far ([KMax]).  Over any stream of
+   authentic protected records and remote-epoch changes: (1) the verdicts are exactly those of the
+   per-epoch flags (rule RSeen, the code), (2) the summary is the highest epoch in which a record was
+   admitted, (3) a record is judged newest if and only if it is above the running maximum - epoch,
+   then sequence number (RFC 9146 section 6) - of the records admitted before it. *)
+Theorem C15_newest_is_running_max :
+  forall (r0 : N) (evs : list nevent),
+    snd (srun KMax (sinit r0) evs) = snd (nrun RSeen (ninit r0) evs) /\
+    SumOk (s_sum (fst (srun KMax (sinit r0) evs)))
+          (rev (map (fun x => fst (rec_of x)) (snd (srun KMax (sinit r0) evs)))) /\
+    forall pre ep seq v post,
+      snd (srun KMax (sinit r0) evs) = pre ++ (ep, seq, v) :: post ->
+      (v = true <-> above (ep, seq) (rmax (map rec_of pre))).
+Proof. exact newest_is_running_max. Qed.
+Print Assumptions C15_newest_is_running_max.
+
+(* [above x (rmax l)] is "x is above every element of l" *)
+Theorem C15_running_max_spec :
+  forall (l : list (N * N)) (x : N * N), (forall p, In p l -> lex_lt p x) <-> above x (rmax l).
+Proof. exact rmax_spec. Qed.
+Print Assumptions C15_running_max_spec.
+
+(* The summary that remembers the epoch accepted LAST ([KLast]) is refuted: after records of epoch 4
+   were admitted the first stale record (3, 5) is refused but drags the summary back to 3, so the next
+   one (3, 6) is judged the newest record of the connection (a path challenge to wherever it came
+   from); and after the stale (3, 5) the late first record (4, 0) passes for the first of its epoch. *)
+Theorem C15_newest_last_epoch_refuted :
+  let evs1 := [NRecord 3 0; NRecord 3 1; NRemote 4; NRecord 4 0; NRecord 4 1; NRecord 3 5; NRecord 3 6] in
+  let evs2 := [NRecord 3 0; NRemote 4; NRecord 4 1; NRecord 4 2; NRecord 3 5; NRecord 4 0] in
+  snd (srun KLast (sinit 3) evs1) =
+    [(3, 0, true); (3, 1, true); (4, 0, true); (4, 1, true); (3, 5, false); (3, 6, true)] /\
+  snd (srun KMax (sinit 3) evs1) =
+    [(3, 0, true); (3, 1, true); (4, 0, true); (4, 1, true); (3, 5, false); (3, 6, false)] /\
+  s_sum (fst (srun KLast (sinit 3) evs1)) = Some 3 /\ s_sum (fst (srun KMax (sinit 3) evs1)) = Some 4 /\
+  snd (srun KLast (sinit 3) evs2) =
+    [(3, 0, true); (4, 1, true); (4, 2, true); (3, 5, false); (4, 0, true)] /\
+  snd (srun KMax (sinit 3) evs2) =
+    [(3, 0, true); (4, 1, true); (4, 2, true); (3, 5, false); (4, 0, false)].
+Proof. exact newest_last_epoch_refuted. Qed.
+Print Assumptions C15_newest_last_epoch_refuted.
+
 (* ------------------------------------------------------------------ challenge freshness *)
 
 Theorem C15_response_accept_spec :
